@@ -31,6 +31,21 @@ def path_requests(rng, n):
         out.append("path %s %d %s" % (op, len(args), " ".join(hx(x) for x in args)))
     return out
 
+def witness_slash_names(laze):
+    """builder a/b + app c and builder a + app b/c: one 'private' object directory build/objects/a/b/c for both"""
+    from .. import e2e, ninja_parse
+    rules = [{"name": "AS", "in": "S", "out": "o", "cmd": "as ${ASFLAGS} ${in} -o ${out}", "shareable": False}, {"name": "LINK", "in": "o", "cmd": "ld ${in} -o ${out}"}]
+    f = {"laze-project.yml": [{"contexts": [{"name": "default", "rules": rules, "env": {"bindir": "build/${builder}/${app}"}}],
+                               "builders": [{"name": "a/b", "env": {"ASFLAGS": "-DAB"}}, {"name": "a", "env": {"ASFLAGS": "-DA"}}],
+                               "apps": [{"name": "c", "sources": ["x.S"], "blocklist": ["a"]}, {"name": "b/c", "sources": ["x.S"], "blocklist": ["a/b"]}]}]}
+    r = e2e.run_laze(laze, f, {}, info=False)
+    if r["rc"] != 0 or r["ninja"] is None: return False
+    p = ninja_parse.parse(r["ninja"].decode("utf-8", "replace"))
+    outs = [tuple(b["outs"]) for b in mc.compile_stmts(p)]
+    return len(outs) == 2 and outs[0] == outs[1]
+
+KNOWN = {"K07:slash-in-names": witness_slash_names}
+
 def run(rep, tier, seed, rng):
     core.proof_step(rep, "C07", clean=(tier == "thorough"))
     # object paths are built with camino's push / with_extension / starts_with: the model's Path.v against camino itself
@@ -67,6 +82,14 @@ def run(rep, tier, seed, rng):
             ndis += 1
             rep.violation("compile statements (source, rule, object path) differ from the model", gen_common.replay_data(r),
                           found_input=False)
+    open_known = {k["key"] for k in core.load_known() if k.get("property") == "C07" and k.get("status") == "open"}
+    wit = {}
+    for key, fn in KNOWN.items():
+        try: wit[key] = bool(fn(laze))
+        except Exception as e: wit[key] = "error: %s" % e
+        if wit[key] is True and key not in open_known:
+            rep.violation("two builds share one 'private' object of a non-shareable rule (%s)" % key, dict(witness=key), found_input=True)
+    rep.cov.update(known_finding_witnesses=wit)
     rep.cov.update(evaluations=len(cases), distinct_nontrivial=len(distinct),
                    rule="corpus + random projects (several builders compiling the same sources, env differing in variables the rule uses or not, build deps, "
                         "non-shareable rule AS); the sharing predicate is evaluated on all pairs of compile statements of one source in every written file; "
